@@ -1089,7 +1089,42 @@ func MapOrder[M ~map[K]V, K comparable, V any](m M, site int32) []K {
 		access(mapAddr[M, K, V](m), site, false)
 	}
 	// canonical order first (by formatted key), then a seeded shuffle
-	sort.Slice(keys, func(i, j int) bool { return fmt.Sprint(keys[i]) < fmt.Sprint(keys[j]) })
+	// (each key is formatted once: formatting inside the comparison made a range over a memo of a few thousand
+	// entries - "drop any one entry" - cost seconds, found through refactoring rL)
+	nums := make([]uint64, len(keys))
+	allNum := true
+	for i, k := range keys {
+		switch x := any(k).(type) {
+		case int:
+			nums[i] = uint64(x) ^ 1<<63
+		case int64:
+			nums[i] = uint64(x) ^ 1<<63
+		case uint64:
+			nums[i] = x
+		case int32:
+			nums[i] = uint64(int64(x)) ^ 1<<63
+		case uint32:
+			nums[i] = uint64(x)
+		default:
+			allNum = false
+		}
+		if !allNum {
+			break
+		}
+	}
+	if allNum {
+		sort.Sort(&numSorter[K]{keys, nums})
+	} else {
+		strs := make([]string, len(keys))
+		for i, k := range keys {
+			if x, ok := any(k).(string); ok {
+				strs[i] = x
+			} else {
+				strs[i] = fmt.Sprint(k)
+			}
+		}
+		sort.Sort(&keySorter[K]{keys, strs})
+	}
 	mapIter++
 	if MapSalt != 0 {
 		s := cfg.Seed ^ MapSalt*0x9e3779b97f4a7c15 ^ uint64(site)<<32 ^ mapIter
@@ -1101,6 +1136,30 @@ func MapOrder[M ~map[K]V, K comparable, V any](m M, site int32) []K {
 		faultsF["map_order"]++
 	}
 	return keys
+}
+
+type numSorter[K comparable] struct {
+	keys []K
+	nums []uint64
+}
+
+func (s *numSorter[K]) Len() int           { return len(s.keys) }
+func (s *numSorter[K]) Less(i, j int) bool { return s.nums[i] < s.nums[j] }
+func (s *numSorter[K]) Swap(i, j int) {
+	s.keys[i], s.keys[j] = s.keys[j], s.keys[i]
+	s.nums[i], s.nums[j] = s.nums[j], s.nums[i]
+}
+
+type keySorter[K comparable] struct {
+	keys []K
+	strs []string
+}
+
+func (s *keySorter[K]) Len() int           { return len(s.keys) }
+func (s *keySorter[K]) Less(i, j int) bool { return s.strs[i] < s.strs[j] }
+func (s *keySorter[K]) Swap(i, j int) {
+	s.keys[i], s.keys[j] = s.keys[j], s.keys[i]
+	s.strs[i], s.strs[j] = s.strs[j], s.strs[i]
 }
 
 // KV is one map entry handed to a rewritten `for k, v := range m` loop.
